@@ -274,10 +274,13 @@ func (vCommitQuietLogger) Fatalf(format string, args ...interface{}) {
 // size class: 0 small, 1 medium (fills memtables quickly), 2 just below the
 // large-batch threshold, 3 just above it (flushable batch).
 func (h *vCommitHarness) commitOne(thr int, r *rand.Rand) {
+	h.commitWith(thr, r, r.IntN(h.G), r.IntN(8))
+}
+
+// commitWith commits one batch to group g with size class cls (see commitOne).
+func (h *vCommitHarness) commitWith(thr int, r *rand.Rand, g int, cls int) {
 	d := h.d
-	g := r.IntN(h.G)
 	tok := int(h.tok.Add(1))
-	cls := r.IntN(8)
 	thresh := int(d.largeBatchThreshold)
 	var vsize int
 	switch {
